@@ -131,6 +131,7 @@ def run(ctx):
                     ctx.oracle_fail("C17:parse-diagnostics", "re-casing changed the parser diagnostics of file %s" % v.files[k][0],
                                     {"workspace": v.id, "file": k, "as_written": d0[:300], "recased": d1[:300], "case": v.to_json(), "base": g[0].to_json()})
     ctx.count("metamorphic comparisons", ncmp)
+    hierarchy_recase(ctx, 150 if ctx.tier == "quick" else 3000)
     # the linters' sites of the conjunction: all diagnostics other than the naming conventions, on re-cased programs
     lintcheck.recase_oracle(ctx, 300 if ctx.tier == "quick" else 6000)
     ctx.extract_detail = getattr(ctx, "extract_info", {})
@@ -146,9 +147,74 @@ RULE = ("cases = generated workspaces (as C10), each rendered five times: as wri
         "as-written one (+ tree shape and parser diagnostics of every file modulo letter case); distinct_nontrivial = distinct non-empty answers")
 
 
+def hierarchy_recase(ctx, n):
+    """the type hierarchy under re-cased PARENT references: the same abstract workspace (3–6 classes; parents mostly a forest,
+    sometimes a class itself, a cycle or a missing class) is built by the real EntityTreeService with the parent references as
+    written and with every parent reference upper / lower / randomly re-cased — same enumeration order of the files forced in
+    all renderings — and prepare / supertypes / subtypes of every class and member must coincide (harness mode `tree`)"""
+    from . import c13
+    rng = ctx.rng
+    lines, groups = [], []
+    for g in range(n):
+        k = 3 + rng.below(4)
+        names = c13.NAMES[:k]
+        files = []
+        for i, nm in enumerate(names):
+            r = rng.below(10)
+            par = None
+            if r < 5 and i > 0:
+                par = names[rng.below(i)]
+            elif r == 5:
+                par = nm                     # self parent
+            elif r == 6:
+                par = names[rng.below(k)]    # any class: cycles possible
+            elif r == 7:
+                par = "aMissing"
+            mem = [m for m in c13.MEMBERS if rng.chance(1, 2)]
+            files.append((nm, par, mem))
+        order = ".".join(map(str, range(k)))
+        var = []
+        for mode in range(4):
+            def rc(s):
+                if mode == 0:
+                    return s
+                if mode == 1:
+                    return s.upper()
+                if mode == 2:
+                    return s.lower()
+                return "".join(c.upper() if rng.chance(1, 2) else c.lower() for c in s)
+            fs = ",".join("%s:%s:%s" % (nm, rc(par) if par else "-", "+".join(mem) or "-") for nm, par, mem in files)
+            var.append("tree %s %d 2 c0 %s" % (fs, k, order))
+        groups.append((len(lines), len(var)))
+        lines += var
+        ctx.count("hierarchy re-casing groups")
+    out = ctx.run_harness("tree", lines)
+    for st, ln in groups:
+        base = out[st].split(" | ", 1)
+        if len(base) < 2 or "harness-stuck" in out[st]:
+            continue
+        # the requested enumeration order must have been realised in all renderings (else the comparison says nothing)
+        for j in range(1, ln):
+            o = out[st + j].split(" | ", 1)
+            if len(o) < 2 or o[0].split()[0] != base[0].split()[0]:
+                continue
+            if o[1] != base[1]:
+                ctx.oracle_fail("C17:hierarchy", "the type hierarchy changed when the parent references were re-cased",
+                                {"mode": "tree", "case": lines[st + j], "as_written": lines[st], "answers_as_written": base[1][:1500], "answers_recased": o[1][:1500]})
+
+
 def replay(ctx):
     d = json.load(open(ctx.replay))
     case = d.get("case", {})
+    if isinstance(case, dict) and case.get("mode") == "tree":
+        ctx.build_harness()
+        a, b = ctx.run_harness("tree", [case["as_written"], case["case"]])
+        print("as written:", case["as_written"], "\n  ->", a)
+        print("re-cased  :", case["case"], "\n  ->", b)
+        if a.split(" | ", 1)[-1] != b.split(" | ", 1)[-1]:
+            print("VIOLATION property=%s replay=%s" % (PROP, ctx.replay))
+            return 1
+        return 0
     if isinstance(case, dict) and case.get("mode") == "lint":
         ctx.build_harness()
         a, b = ctx.run_harness("lint", ["lint " + core.esc(case["as_written"]), "lint " + core.esc(case["text"])])
